@@ -6,6 +6,8 @@
 (*  "cc"    circle / circle contains and intersects on the lattice;         *)
 (*  "frac"  a probe placed at distance f/10000 of the radius from the       *)
 (*          centre at some bearing: inside exactly when f <= 10000;         *)
+(*  "ccf"   two circles at free positions: contains only if d + rb <= ra,    *)
+(*          intersects iff d <= ra + rb (both call directions agree);        *)
 (*  "dist"  Object.Distance between point-like objects at lattice positions  *)
 (*          c and p: D(c,p) steps of u (within 50 millionths of u), and the  *)
 (*          same in both call directions;                                     *)
@@ -20,6 +22,10 @@ Good(e) ==
      [] e.op = "cc" -> (e.kind = "contains" /\ (AmbiguousContains(e.c, e.r, e.c2, e.r2) \/ e.got = ContainsCircle(e.c, e.r, e.c2, e.r2)))
                        \/ (e.kind = "intersects" /\ (AmbiguousIntersects(e.c, e.r, e.c2, e.r2) \/ e.got = IntersectsCircle(e.c, e.r, e.c2, e.r2)))
      [] e.op = "frac" -> e.got = (e.f <= 10000)
+     \* two circles anywhere (centimetres to megametres): centre distance d and radius rb in millionths of ra; events too close to
+     \* a threshold are not recorded.  Contains only if d + rb <= ra; intersects iff d <= ra + rb
+     [] e.op = "ccf" -> /\ (e.contains => e.d + e.rb <= 1000000) /\ (e.intersects <=> e.d <= 1000000 + e.rb)
+                        /\ (e.contains => e.intersects) /\ e.symmetric
      [] e.op = "dist" -> e.steps = D(e.c, e.p) /\ e.err_ppm <= 50 /\ e.symmetric
      [] e.op = "ser" -> e.iscircle /\ e.samecentre /\ e.sameradius
      [] e.op = "shape" -> e.closed /\ e.rectHasCentre /\ e.steps >= 3
